@@ -189,6 +189,7 @@ func init() {
 		fmt.Fprintf(&e.out, "def qGatesOff : Bool := %v\n", allOff)
 
 		c19BootFacts(e)
+		c19PreBindFacts(e)
 	}
 }
 
@@ -558,4 +559,142 @@ func c19BootFacts(e *ext) {
 		e.fail("Options.Config not found")
 	}
 	fmt.Fprintf(&e.out, "/-- options.Config wraps config.InformerFactory with NewForceSyncSharedInformerFactory -/\ndef bootKubeFactoryWrapped : Bool := %v\n", wrapped)
+}
+
+// ---- ext5: the WRITE side of PreBind ----
+
+// c19ParamUses: for every occurrence of the identifier `param` inside body, in source order, the name of the innermost
+// call that has it as a direct argument or as its receiver ("?" when it is used in any other way).
+func c19ParamUses(body ast.Node, param string) []string {
+	type use struct {
+		pos  token.Pos
+		name string
+	}
+	owner := map[*ast.Ident]string{}
+	ast.Inspect(body, func(n ast.Node) bool {
+		c, ok := n.(*ast.CallExpr)
+		if !ok {
+			return true
+		}
+		for _, a := range c.Args {
+			if id, ok := a.(*ast.Ident); ok && id.Name == param {
+				owner[id] = c19CalleeName(c)
+			}
+		}
+		if sel, ok := c.Fun.(*ast.SelectorExpr); ok {
+			if id, ok := sel.X.(*ast.Ident); ok && id.Name == param {
+				owner[id] = sel.Sel.Name
+			}
+		}
+		return true
+	})
+	var uses []use
+	ast.Inspect(body, func(n ast.Node) bool {
+		if id, ok := n.(*ast.Ident); ok && id.Name == param {
+			name, ok := owner[id]
+			if !ok {
+				name = "?"
+			}
+			uses = append(uses, use{id.Pos(), name})
+		}
+		return true
+	})
+	sort.Slice(uses, func(i, j int) bool { return uses[i].pos < uses[j].pos })
+	var out []string
+	for _, u := range uses {
+		out = append(out, u.name)
+	}
+	return out
+}
+
+func c19NthParam(fd *ast.FuncDecl, n int) string {
+	i := 0
+	for _, f := range fd.Type.Params.List {
+		for _, nm := range f.Names {
+			if i == n {
+				return nm.Name
+			}
+			i++
+		}
+		if len(f.Names) == 0 {
+			i++
+		}
+	}
+	return ""
+}
+
+func c19PreBindFacts(e *ext) {
+	// how preBindObject(ctx, cycleState, object, nodeName) uses the object it persists on: it is handed to the
+	// writers only, never read (a read = the written value could depend on what the object already carries)
+	for _, x := range []struct{ dir, lean, doc string }{
+		{"pkg/scheduler/plugins/nodenumaresource", "numaPreBindObjectUses", "nodenumaresource preBindObject: every use of the persisted-on object, in source order (innermost call taking it)"},
+		{"pkg/scheduler/plugins/deviceshare", "devPreBindObjectUses", "deviceshare preBindObject: every use of the persisted-on object, in source order: the annotation is written BEFORE the device-plugin adaption"},
+	} {
+		fd := e.funcDecl(x.dir, "Plugin", "preBindObject")
+		if fd == nil || fd.Body == nil || c19NthParam(fd, 2) == "" {
+			e.fail("%s preBindObject not found / unexpected signature", x.dir)
+			continue
+		}
+		fmt.Fprintf(&e.out, "/-- %s -/\ndef %s : List String := %s\n", x.doc, x.lean, c19StrList(c19ParamUses(fd.Body, c19NthParam(fd, 2))))
+	}
+	// the device-plugin adapters READ the allocation: no assignment through the allocation parameter of any Adapt
+	// method (or through a range variable over it)
+	var writes []string
+	nAdapt := 0
+	for _, f := range e.dir("pkg/scheduler/plugins/deviceshare") {
+		for _, d := range f.Decls {
+			fd, ok := d.(*ast.FuncDecl)
+			if !ok || fd.Name.Name != "Adapt" || fd.Recv == nil || fd.Body == nil {
+				continue
+			}
+			nAdapt++
+			recv := c19Render(fd.Recv.List[0].Type)
+			tainted := map[string]bool{}
+			if p := c19NthParam(fd, 2); p != "" && p != "_" {
+				tainted[p] = true
+			}
+			ast.Inspect(fd.Body, func(n ast.Node) bool {
+				if rs, ok := n.(*ast.RangeStmt); ok {
+					root := c19Render(rs.X)
+					for t := range tainted {
+						if root == t || strings.HasPrefix(root, t+"[") || strings.HasPrefix(root, t+".") {
+							if id, ok := rs.Value.(*ast.Ident); ok && id.Name != "_" {
+								tainted[id.Name] = true
+							}
+						}
+					}
+				}
+				return true
+			})
+			isTainted := func(x ast.Expr) bool {
+				l := c19Render(x)
+				for t := range tainted {
+					if strings.HasPrefix(l, t+"[") || strings.HasPrefix(l, t+".") || strings.HasPrefix(l, "*"+t) {
+						return true
+					}
+				}
+				return false
+			}
+			ast.Inspect(fd.Body, func(n ast.Node) bool {
+				switch v := n.(type) {
+				case *ast.AssignStmt:
+					if v.Tok != token.DEFINE {
+						for _, l := range v.Lhs {
+							if isTainted(l) {
+								writes = append(writes, recv+":"+c19Render(l))
+							}
+						}
+					}
+				case *ast.IncDecStmt:
+					if isTainted(v.X) {
+						writes = append(writes, recv+":"+c19Render(v.X))
+					}
+				}
+				return true
+			})
+		}
+	}
+	sort.Strings(writes)
+	fmt.Fprintf(&e.out, "/-- assignments through the allocation parameter inside the device-plugin adapters' Adapt methods (sorted) -/\ndef devAdaptersWriteAllocation : List String := %s\n", c19StrList(writes))
+	fmt.Fprintf(&e.out, "/-- number of Adapt methods inspected -/\ndef devAdaptersCount : Nat := %d\n", nAdapt)
 }
